@@ -232,6 +232,10 @@ func verifyPublicKeyEdDSA(mesage []byte, signature []byte, key jwk.Key) (bool, e
 		if okpKey.Raw(&ed25519Key) != nil {
 			return false, ErrKeyTypeMismatch
 		}
+		// ed25519.Verify panics if the public key has the wrong size
+		if len(ed25519Key) != ed25519.PublicKeySize {
+			return false, ErrKeyTypeMismatch
+		}
 		return ed25519.Verify(ed25519Key, mesage, signature), nil
 
 	default:
